@@ -205,6 +205,17 @@ def check(R, F, P, cfg):
     cu = P.call_sites(lambda ci: "catch_unwind" in ci["npath"])
     R.inst("R7.6", "no-catch_unwind", not cu, "calls of catch_unwind in the crate: %s" % [f.npath for f, _, _ in cu], cfg=cfg, nontrivial=False)
 
+    # ---- R7.8 no buffered box across its own payload destructor --------------------------------------
+    R.doc("R7.8", "Cc::drop un-buffers the box (remove_from_list) and brings its count to 0 before the payload destructor can run: if that destructor panics the leaked box must not stay linked in the buffer")
+    dr = anchor(F, "<cc::Cc<T> as std::ops::Drop>::drop")
+    Sd = Super(P, dr, opaque=default_opaque(F) - {dr.npath})
+    pds = [x for x in Sd.usite_nodes(("DROP",)) if x.ci["k"] == "call"]
+    for n in pds:
+        so = obj_of(Sd.args_of(n)[0])
+        rm = [x for x in Sd.calls_to("cc::remove_from_list") if obj_of(Sd.args_of(x)[0]) == so and Sd.dominates(x, n, exclude=("ui", "u"))]
+        R.inst("R7.8", "unbuffer-before-payload-drop", bool(rm), "remove_from_list(self) %s the payload destructor in Cc::drop" % ("dominates" if rm else "does NOT dominate"), where=n.where(), cfg=cfg)
+    R.floor("R7.8", cfg, 1, len(pds))
+
     # ---- R7.7 idle tracing counters / uninitialised wrapper -------------------------------------
     check_idle_tc(R, F, P, cfg, "R7.7")
     if weak:
@@ -476,8 +487,7 @@ def check_idle_tc(R, F, P, cfg, rule):
             if x.ci is None or x.inlined or x.ci["k"] != "call" or x.ci["npath"] != CM + "reset_tracing_counter":
                 return False
             return any(c.via == "dtor" for c in _ctx_chain(x.ctx))
-        heads = [h for h in loop_heads_applying(S2, resets2, exclude=("ui",))
-                 if any(y.ci is not None and y.ci["k"] == "call" and y.ci["npath"] in (PC + "first", PC + "iter", PC + "remove_first") for y in S2.nodes if y.ctx is h.ctx)]
+        heads = [h for h in loop_heads_applying(S2, resets2, exclude=("ui",)) if _walks_whole_buffer(S2, h)]
         ok, _ = unwind_must_pass(S2, U, lambda x: x in heads)
         chain = " > ".join(P.fns[c].npath.split("::")[-1] for c in U.ctx.chain)
         R.inst(rule, "idle-tc", ok,
@@ -485,6 +495,43 @@ def check_idle_tc(R, F, P, cfg, rule):
                    tr.npath, incs[0].where(), chain, "passes" if ok else "does NOT pass", "starts from clean counters" if ok else "would read stale counters and may reclaim a live object"),
                where=U.where(), cfg=cfg)
     R.floor(rule + "/idle-tc", cfg, 1, k)
+
+
+def _walks_whole_buffer(S, head):
+    """The reset loop really visits every buffered object: it pops the buffer until None, or iterates its iterator,
+    or walks it by hand starting at PossibleCycles::first() and advancing through the *next* link of the element it just reset."""
+    ctx = head.ctx
+    cyc = [n for n in S.nodes if n.ctx is ctx and on_cycle(S, n, exclude=("ui",))]
+    for n in cyc:
+        if n.ci is not None and n.ci["k"] == "call" and n.ci["npath"] == PC + "remove_first":
+            return True
+        if n.ci is not None and n.ci["k"] == "call" and n.ci["npath"] == "std::iter::Iterator::next" and "iter(" in fmt(S.args_of(n)[0]) and "possible_cycles" in fmt(S.args_of(n)[0]):
+            return True
+    e = S.switch_expr(head)
+    e = e[1] if isinstance(e, tuple) and e and e[0] == "discr" else e
+    e = strip(e)
+    if not (isinstance(e, tuple) and e and e[0] == "phi"):
+        return False
+    L = e[2]
+    fn = ctx.fn
+    seeds, advances = [], []
+    for d in S._defs(fn).get(L, []):
+        if d[0] == "stmt":
+            v = S.resolve_rv(ctx, fn.blocks[d[1]]["stmts"][d[2]]["rv"], None)
+        else:
+            v = S.resolve_call_value(ctx, d[1])
+        sv = fmt(strip(v))
+        nd = S.blocks_of.get((ctx.id, d[1]))
+        in_loop = nd is not None and nd in cyc
+        if in_loop:
+            advances.append(sv)
+        else:
+            seeds.append(sv)
+    resets = [n for n in cyc if n.ci is not None and n.ci["k"] == "call" and n.ci["npath"] == CM + "reset_tracing_counter"]
+    elem = fmt(obj_of(S.args_of(resets[0])[0])) if resets else None
+    seed_ok = bool(seeds) and all(("first(" in s_ and "possible_cycles" in s_) or s_.endswith("possible_cycles.first)") for s_ in seeds)
+    adv_ok = bool(advances) and elem is not None and all(a == "%s.next" % elem or a == "*%s.next" % elem or a.endswith(".next") and elem in a for a in advances)
+    return seed_ok and adv_ok
 
 
 def _ctx_chain(c):
